@@ -635,6 +635,43 @@ def stalled_connect_sweep(ctx: Ctx, prop: str) -> None:
                             record(ctx, prop, run_spec(spec), "stalled-connect")
 
 
+def high_water_sweep(ctx: Ctx, prop: str) -> None:
+    """The device stops reading and the application has queued data up to just below the transport's high-water mark; the write that crosses it
+    (the transport then calls the protocol's pause_writing() synchronously, from inside that write) is the request of an awaited call, a
+    disconnect(), a fire-and-forget command or the keepalive ping.  Whatever the library does at that point - nothing, or closing the connection -
+    the caller of the crossing write and everybody else must see a consistent picture: judged by the ordinary close/waiter/lifecycle judges."""
+    S = L.default_spec
+    t0 = L.core_start()
+    idx = 0
+    for framing in ("plain", "noise"):
+        for margin in (1, 40, 3000):
+            for then in ("device_info", "list_entities", "disconnect", "ping", "spawn2", "cmd"):
+                for release in (None, 2.0):
+                    idx += 1
+                    if not ctx.mine(idx):
+                        continue
+                    prog: list[list[Any]] = [["connect"], ["spawn", "device_info"] if then == "spawn2" else ["sleep", 0.2], ["stall_fill", margin]]
+                    faults: list[dict[str, Any]] = []
+                    if then in ("device_info", "list_entities"):
+                        prog += [["request", then]]
+                    elif then == "spawn2":
+                        prog += [["spawn", "list_entities"], ["spawn", "device_info"], ["await_all"]]
+                    elif then == "ping":
+                        prog += [["sleep", 30.0]]
+                    elif then == "cmd":
+                        faults.append({"kind": "cmd", "point": {"t": t0 + 1.0}, "posclass": "high-water"})
+                        prog += [["sleep", 2.0], ["request", "device_info"]]
+                    if release is not None:
+                        prog.insert(-1, ["stall_release", 4000]) if then == "spawn2" else prog.append(["stall_release", 4000])
+                        prog += [["sleep", release]]
+                    prog += [["disconnect"]]
+                    dev = {"handlers": "slow_device_info"} if then == "spawn2" else {}
+                    spec = S(framing=framing, login=False, password=None, device=dev, program=prog, faults=faults, keepalive=20.0)
+                    o = run_spec(spec)
+                    ctx.res.count(f"workload/high-water/{'library refused to queue' if o.stall.get('refused') else 'filled'}")
+                    record(ctx, prop, o, "high-water")
+
+
 def same_turn_pairs_sweep(ctx: Ctx, prop: str) -> None:
     """A network close cause and a user action in the SAME loop iteration, in both orders (user action ahead of the I/O callbacks of the
     instant, or behind them as a zero-delay timer), on an idle session and on one with a request pending."""
